@@ -219,6 +219,7 @@ def run_check(modname, tier, seed, workers=None, only_units=None):
             unlisted[v["sig"]] = [v, 1]
         else:
             slot[1] += 1
+    capped_units = []
     try:
         for idx, r, err in results:
             if err == "timeout":
@@ -247,6 +248,8 @@ def run_check(modname, tier, seed, workers=None, only_units=None):
                 else:
                     agg.counters[ck] += cv
             agg.capped = agg.capped or r.capped
+            if r.capped and len(capped_units) < 20:
+                capped_units.append(repr(jsonable(units[idx]))[:200])
             if r.nontrivial_keys is not None:
                 use_keys = True
                 nontrivial_keys |= r.nontrivial_keys
@@ -310,6 +313,7 @@ def run_check(modname, tier, seed, workers=None, only_units=None):
         rule=getattr(mod, "RULE", ""),
         samples=jsonable(agg.samples) or ["<none>"],
         exhaustive=bool(exhaustive),
+        capped_units=capped_units,    # units that stopped at their own cap (their counts are what was covered below it)
         bounds=jsonable(mod.bounds(tier)) if hasattr(mod, "bounds") else {},
         units=n,
         workers=workers,
